@@ -52,7 +52,7 @@ CLAIMED = {
     "C17": dict(
         text="Coq theorems: valid iff no error; the one-shot wrapper returns nil or exactly the result's errors; message-keyed "
              "de-duplication keeps NoDup and loses nothing; merge validity; every error name is empty or extends the validator's path, "
-             "through every keyword group, for every schema, value and fuel (names_extend_the_path). Tie: the set of (code, name), MatchCount and error count "
+             "through every keyword group, for every schema, value and fuel (names_extend_the_path); every error designates its place - its name is the path followed by a walk into the value (members the object has, or the missing member required reports; indices the array has) - on every set of schemas closed under sub-schemas and reference targets without single-schema items and schema dependencies (errors_designate_their_place; the class is decided per case, 76% of the quick run inside). Tie: the set of (code, name), MatchCount and error count "
              "of every result compared with the L1 model, whose names reproduce each concatenation site; oracle on Go output: names "
              "extend the root and designate a member (or a missing required one) on the claimed class.",
         note=TB + "No axioms. That a name designates an existing member (or a missing required one) is checked by the oracle on Go output, not proved.",
